@@ -162,7 +162,8 @@ fn search_next_offset_idx<N: OffsetSizeTrait>(offsets: &[N], last_offset_idx: us
             break;
         }
     }
-    last_offset_idx + new_num_values
+    // `new_num_values` is the window that did not fit, `num_values` the last one that did
+    last_offset_idx + num_values
 }
 
 impl BinaryMiniBlockEncoder {
